@@ -223,7 +223,8 @@ pub fn run_history(h: &History) -> (HistStats, Option<(String, String)>) {
 
 /// Seeded history generator. Weights vary per run (swarm); only API-legal histories are produced.
 pub fn gen_history(rng: &mut Rng, thorough: bool) -> History {
-    let n_slots = 3;
+    // the property's own bound is 3 slots and 3 values; the thorough tier also varies the width
+    let n_slots = if thorough && rng.chance(1, 3) { rng.range(1, 5) } else { 3 };
     let max_stack = if rng.chance(1, 3) { rng.range(2, 8) } else { 1_000_000 };
     let len = rng.range(5, if thorough { 120 } else { 60 });
     // swarm weights: push pop save auxpush auxpop enter commit cut
@@ -658,6 +659,31 @@ pub fn minimise_ast(ast: &Node, still: &dyn Fn(&str) -> bool) -> Node {
             return cur;
         }
     }
+}
+
+/// Event digests per job for the determinism self-test.
+pub fn digest(seed: u64, n: u64, workers: usize) -> Vec<u64> {
+    let (res, _) = run_batch(n, workers, move |i| {
+        let (o, v) = job(seed, i, false);
+        let mut d = Fnv::new();
+        d.u64(o.hist_ops);
+        d.u64(o.hist_commits);
+        d.u64(o.hist_cap_faults);
+        d.u64(o.shadow.insns);
+        d.u64(o.shadow.ops);
+        d.u64(o.shadow.pops);
+        d.u64(o.shadow.cuts);
+        d.u64(o.prog_fault_fired);
+        for h in &o.hist_nontrivial_hashes {
+            d.u64(*h);
+        }
+        for h in &o.prog_nontrivial_hashes {
+            d.u64(*h);
+        }
+        d.u64(v.is_some() as u64);
+        (d.0, None)
+    });
+    res.into_iter().map(|(_, d)| d).collect()
 }
 
 pub fn replay(case: &Value) -> Option<(String, String)> {
